@@ -35,8 +35,8 @@ def shape_guards(ctx, rep, rule: str) -> None:
         cfg = CFG(fi.node)
         tests = [t for t in cfg.nodes if t.kind == "test"]
         def find(pred):
-            return [t for t in tests if pred(_norm(t.ast.test)) and any(isinstance(s, ast.Raise) and "ValueError" in _norm(s) for s in t.ast.body)]
-        two_d = find(lambda s: "len(" in s and "!= 2" in s)
+            return [t for t in tests if pred(A.tnorm(A.expanded(fi.node, t.ast.test))) and any(isinstance(s, ast.Raise) and "ValueError" in _norm(s) for s in t.ast.body)]
+        two_d = find(lambda s: ".ndim != 2" in s)  # tensor-normal text: len(A.shape) / A.dim() / A.ndim are one spelling
         square = find(lambda s: "[0] != " in s and "[1]" in s)
         targets = [cfg.node_of(c) for c in A.calls(fi.node) if solver_pred(A.callee_name(repo, m, c))]
         if name == "check_diagonal":
@@ -197,7 +197,7 @@ def retry_rule(ctx, rep, rule: str) -> None:
         for is64 in (True, False):
             val = {a: is64 for a in dtype_atoms} | {a: flag for a in flag_atoms}
             stmts, end = A.walk_path(h.body, val)
-            retried = any(A.callee_name(repo, m, c) == "torch.linalg.eigh" and c.args and _norm(c.args[0]) == "A.double()" for s in stmts for c in A.calls(s))
+            retried = any(A.callee_name(repo, m, c) == "torch.linalg.eigh" and c.args and A.tnorm(c.args[0]) == "A.to(dtype=torch.float64)" for s in stmts for c in A.calls(s))
             want_retry = flag and not is64
             n_cases += 1
             if want_retry and not (retried and end == "end"):
